@@ -73,8 +73,29 @@ def handleProg : Handler := fun input impl =>
           (if mdiags.isEmpty then ["silent"] else []) ++
           (if spec.occs.any (fun o => o.binding.isSome && (lib.globals.any fun (k, _) => (k.splitOn ".").head? == some o.name)) then ["rebound-library-name"] else []) ++
           (if coherent then [] else ["first-ref-incoherent"]) ++ (if distinct then [] else ["reference-tokens-not-distinct"])
+        -- at a library call site the model's style / count problems are exactly the documented ones (C05_prog_style,
+        -- C05_prog_count), and at a read or assignment target its access problems are those of the documented lookup
+        -- (C06_prog_read, C06_prog_write): a difference there is a difference from the specification
+        let onlyModel := mdiags.filter fun g => !id.contains (showPDiag g)
+        let onlyImpl := idiags.filter fun d => match implKey d with | some k => !md.contains k | none => false
+        let missing := onlyModel.filterMap fun g => match g.kind with
+          | .call (.style _) => some s!"[C05] style/missing: `{g.message.1}` is not reported for the call at tokens {g.span.first}..{g.span.last} although the call style differs from the definition"
+          | .call (.count _ _ _) => some s!"[C05] count/missing: `{g.message.1}` is not reported for the call at tokens {g.span.first}..{g.span.last}"
+          | .call (.needsVararg _) => some s!"[C05] count/missing: `{g.message.1}` is not reported for the call at tokens {g.span.first}..{g.span.last}"
+          | .call .notFunction => some s!"[C05] not-function/missing: `{g.message.1}` is not reported at tokens {g.span.first}..{g.span.last}"
+          | .access _ => some s!"[C06] missing: `{g.message.1}` is not reported at tokens {g.span.first}..{g.span.last} although the documented lookup and writability rules require it"
+          | _ => none
+        let unexpected := onlyImpl.filterMap fun d => match d with
+          | .list [_, sp, m, _] =>
+            let msg := m.asString?.getD ""
+            if msg.endsWith "is a method" || msg.endsWith "is not a method" then some s!"[C05] style/unexpected: `{msg}` at {sp} although the call style matches the definition (or the name is not the library's)"
+            else if (msg.splitOn " requires ").length > 1 then some s!"[C05] count/unexpected: `{msg}` at {sp}"
+            else if (msg.splitOn "does not contain the field").length > 1 || msg.endsWith "is not writable" || msg.endsWith "is not overridable" then
+              some s!"[C06] unexpected: `{msg}` at {sp} although the documented lookup and writability rules allow the access"
+            else none
+          | _ => none
         { agree := md == id && coherent && distinct,
-          spec := inside.head?,
+          spec := (inside ++ missing ++ unexpected).head?.map fun first => " ;; ".intercalate (first :: ((inside ++ missing ++ unexpected).drop 1).take 3),
           model := if md == id then (if !coherent then "hypothesis firstRefCoherent of C07_std_inside does not hold on this program" else if !distinct then "hypothesis `reference tokens pairwise distinct` of C07_std_inside_tree does not hold on this program" else "")
                    else s!"model {md.filter fun x => !id.contains x} impl {id.filter fun x => !md.contains x}",
           tags }
